@@ -451,7 +451,13 @@ impl<'a> Packet<'a> {
                 if warn_more && !rest.is_empty() {
                     warn.warn(Warning::ControlExcessData);
                 }
-                Ok(Token([token[0], token[1], token[2], token[3]]))
+                let token = Token([token[0], token[1], token[2], token[3]]);
+                if token == TOKEN_NONE {
+                    // "No token" is not a valid response token; the writer
+                    // refuses to produce such a packet.
+                    return Err(ControlResponseTokenMissing);
+                }
+                Ok(token)
             };
             let control = match control {
                 CTRLMSG_KEEPALIVE => {
